@@ -50,3 +50,6 @@ func (n *LocalNode) VerifSetSuccs(s []chord.VNode) {
 func (n *LocalNode) VerifSetFinger(k int, f chord.VNode) {
 	n.fingers[k].computeUpdate(func(entry *fingerEntry) { entry.node = f })
 }
+
+// single attempt of the leave protocol (no retry loop, no advisories)
+func (n *LocalNode) VerifExecuteLeave() (pre, succ chord.VNode, err error) { return n.executeLeave() }
